@@ -25,12 +25,16 @@ EXPLANATION = "spectral form and scalar positivity/boundedness facts proved for 
 
 
 def cases(tier):
-    cs = ["diag_eigen/eigen", "diag_eigen/diagonal-any-sign", "lemma/power", "lemma/spectral-calculus-lean", "eigdecomp"]
+    cs = ["diag_eigen/eigen", "diag_eigen/diagonal-any-sign", "lemma/power", "lemma/spectral-calculus-lean", "eigdecomp", "contract/check_diagonal"]
     cs += [f"dispatch/{c}/{s}/{d}" for c in ("eigen", "eigen-stab") for s in ("vec", "rect", "cube", "scalar0", "scalar1", "scalar11", "square") for d in ("d0", "d1")]
     return cs
 
 
 def run_case(case, tier, seed):
+    if case == "contract/check_diagonal":
+        # the library selects the diagonal fast path with is_diagonal=check_diagonal(A): a check_diagonal that accepts a matrix with tiny non-zero
+        # off-diagonal entries yields a root that neither commutes with A nor is equivariant — its exactness contract is part of this check
+        return mf.run_checkdiag(case)
     if case.startswith("diag_eigen/"):
         return mf.run_diag_eigen(case)
     if case == "lemma/spectral-calculus-lean":
@@ -143,6 +147,9 @@ def replay(r):
 
 def replay_file(doc):
     rp = doc.get("replay_input") or {}
+    if rp.get("kind") == "checkdiag":
+        bad = mf.native_checkdiag()
+        return bool(bad), bad or "check_diagonal is exact on tiny off-diagonal entries"
     if rp.get("kind") == "degenerate":
         bad = native_degenerate(rp["n"], rp["spectrum"], rp["dt"], rp["root"], rp["seed"])
         return bool(bad), f"{rp}: {bad}"
